@@ -85,6 +85,10 @@ def worker(a):
         if abs(F2 - F) > tol:
             out.append("F changes by %.3g when the atoms are shifted by a lattice vector (%s)" % (abs(F2 - F), tag))
         half = [S.make_atom(a_.label, a_.atomtype, a_.pos, a_.adp_type, a_.adp, a_.occ / 2.0, a_.symmulti) for a_ in atoms]
+        triple = [S.make_atom(a_.label, a_.atomtype, a_.pos, a_.adp_type, a_.adp, a_.occ * 3.0, a_.symmulti) for a_ in atoms]
+        F9 = S.call_sf(h, cell, name, triple, disp)
+        if abs(F9 - 3 * F) > tol * 3:
+            out.append("F is not linear in occupancy: F(3 occ) - 3 F(occ) = %.3g (%s)" % (abs(F9 - 3 * F), tag))
         F3 = S.call_sf(h, cell, name, half, disp)
         if abs(2 * F3 - F) > tol:
             out.append("F is not linear in occupancy: 2 F(occ/2) - F(occ) = %.3g (%s)" % (abs(2 * F3 - F), tag))
@@ -168,7 +172,7 @@ def run(tier, seed):
                 else:
                     adp = 0.0
                 spec.append({"label": "A%d" % i, "el": rng.choice(S.ELEMENTS), "adp_type": kind, "adp": adp,
-                             "occ": rng.uniform(0.2, 1.0), "shift": (0, 0, 0) if i % 2 else (1, 0, -1)})
+                             "occ": rng.choice([rng.uniform(0.2, 1.0), rng.uniform(0.2, 1.0), 1.0, 0.0, rng.uniform(1.0, 2.5)]), "shift": (0, 0, 0) if i % 2 else (1, 0, -1)})
             mode = rng.choice(["none", "full", "partial"])
             if mode == "none":
                 disp = None
